@@ -1,3 +1,4 @@
+\* X02 non-vacuity: deviation "unlock-early" must violate LockedPropagation
 SPECIFICATION Spec
 CONSTANTS
   NP = 2
